@@ -249,6 +249,7 @@ struct BuildOpts {
   vector<MidEdit> midedits;
   long crash = -1, tear = 0;
   bool keep_depfile = false;
+  bool phonycycle_err = false;
 };
 
 // ---------------------------------------------------------------- scripted command runner
@@ -499,7 +500,9 @@ struct Invocation {
     // the built-in pools are static objects: a fresh process has them pristine
     State::kConsolePool = Pool("console", 1);
     State::kDefaultPool = Pool("", 0);
-    ManifestParser parser(&state, &sc->disk);
+    ManifestParserOptions popts;
+    if (bo && bo->phonycycle_err) popts.phony_cycle_action_ = kPhonyCycleActionError;   // ninja -w phonycycle=err
+    ManifestParser parser(&state, &sc->disk, popts);
     string err;
     if (!parser.Load("build.ninja", &err)) { ev->push_back("ev parse-error " + hex(err)); return false; }
     for (Edge* e : state.edges_) {
@@ -767,6 +770,7 @@ void RunScenarioStep(Scenario* sc, const vector<string>& w, vector<string>* ev, 
     if (kv.count("tokens")) bo.tokens = atoi(kv["tokens"].c_str());
     if (kv.count("interrupt")) bo.interrupt = atoi(kv["interrupt"].c_str());
     if (kv.count("dry")) bo.dry = kv["dry"] == "1";
+    if (kv.count("pce")) bo.phonycycle_err = kv["pce"] == "1";
     if (kv.count("crash")) bo.crash = atol(kv["crash"].c_str());
     if (kv.count("tear")) bo.tear = atol(kv["tear"].c_str());
     for (auto& t : SplitC(kv["targets"], ',')) bo.targets.push_back(unhex(t));
